@@ -311,24 +311,40 @@ def _one_series(rng, nprng, mode, dtype="float64", lengths=LENGTHS_SMOOTH, kind=
     return series(nprng, n, dtype, valid, NODATA, kind), n, valid
 
 
+def _ensure_valid(y, w, need, nprng):
+    """Internal solvers are only ever called behind their callers' minimum-valid-count guards
+    (n > 1 for ws2d/_ws2doptvp, n > 4 for the GCV solver): honour that contract."""
+    n = len(y)
+    need = min(need, n)
+    if int((w > 0).sum()) < need:
+        idx = nprng.choice(n, size=need, replace=False)
+        w = w.copy()
+        y = y.copy()
+        w[idx] = 1.0
+        y[idx] = np.round(3000 + nprng.normal(0, 400, need))
+    return y, w
+
+
 def gen_ws2d(rng, nprng, mode):
     y, n, valid = _one_series(rng, nprng, mode)
     w = (y != NODATA).astype("float64")
+    y, w = _ensure_valid(y, w, 2, nprng)
     if rng.random() < 0.3:
         w = w * nprng.random(n)
     lmda = rng.choice([0.01, 1.0, 10.0, 1e3, 1e6])
     return {"args": [y, float(lmda), w], "outs": [], "size_class": f"n{n}/{valid}"}
 
 
-def gen__ws2doptvp(rng, nprng, mode):
+def gen__ws2doptvp(rng, nprng, mode, need=2):
     y, n, valid = _one_series(rng, nprng, mode)
     w = (y != NODATA).astype("float64")
+    y, w = _ensure_valid(y, w, need, nprng)
     y = np.where(w == 0, 0.0, y)
     return {"args": [y, w, rng.choice([0.5, 0.9]), _srange(rng, mode)], "outs": [], "size_class": f"n{n}/{valid}"}
 
 
 def gen__ws2dwcvp(rng, nprng, mode):
-    d = gen__ws2doptvp(rng, nprng, mode)
+    d = gen__ws2doptvp(rng, nprng, mode, need=5)
     d["args"].append(rng.choice([True, False]))
     return d
 
